@@ -19,6 +19,7 @@ fn adapter(name: &str, variant: &str) -> Option<Box<dyn Adapter>> {
         "hedge" => Box::new(adapters::hedge::HedgeAd::new()),
         "cache" => Box::new(adapters::cache::CacheAd::new()),
         "coalesce" => Box::new(adapters::coalesce::CoalesceAd::new()),
+        "fallback" => Box::new(adapters::fallback::FallbackAd::new()),
         "circuitbreaker" => Box::new(adapters::circuitbreaker::CbAd::new(variant)),
         _ => return None,
     })
